@@ -530,3 +530,16 @@ package base
 //@   ensures[C12,C09] t != nil ==> fresh(result) && result.tType == old(t.tType)
 //@   loop 0 invariant[C12,C09] fresh(result) && result.tType == old(t.tType)
 //@   loop 1 invariant[C12,C09] fresh(result) && result.tType == old(t.tType)
+
+// C09: a hash lookup with a literal key yields the value type stored under that key (the stored
+// object itself, from the first entry with the key); without such an entry a strict lookup yields
+// a fresh NilClass
+//@ func (*ti/base.T).HashReference
+//@   transparent
+//@   ensures[C09] old(exists(i, 0 <= i && i < len(t.variants) && t.variants[i].key == key)) ==> exists(i, 0 <= i && i < len(t.variants) && old(t.variants[i].key) == key && result == unbox(old(t.variants[i].val), "*ti/base.T"))
+//@   loop 0 invariant[C09] forall(j, 0 <= j && j <= rangeindex ==> t.variants[j].key != key)
+//@ func (*ti/base.T).StrictHashReference
+//@   transparent
+//@   ensures[C09] old(exists(i, 0 <= i && i < len(t.variants) && t.variants[i].key == key)) ==> exists(i, 0 <= i && i < len(t.variants) && old(t.variants[i].key) == key && result == unbox(old(t.variants[i].val), "*ti/base.T"))
+//@   ensures[C09] old(forall(i, 0 <= i && i < len(t.variants) ==> t.variants[i].key != key)) ==> fresh(result) && result.tType == NIL
+//@   loop 0 invariant[C09] forall(j, 0 <= j && j <= rangeindex ==> t.variants[j].key != key)
